@@ -81,4 +81,17 @@ PROPS = {
             "finalize = first n bytes of SHA-256 / of the SHAKE256 XOF stream is a model definition, tied to src/hasher/*.rs by the hasher-unit comparison with the sha2 / sha3 crates; the Gallina SHA-256 is compared with the library's on the same inputs",
         ],
     },
+    "C10": {
+        "families": [{"name": "c10"}],
+        "assumptions": [
+            "transparency for a buffer with a VALID MAC needs 'MAC accepted => cached nodes are this tree's nodes' (MAC unforgeability, an explicit hypothesis of the theorem); it holds for buffers written by the library for the same seed and shape",
+            "known finding: the MAC key depends on the seed only, so a library-written buffer of the same seed and another top-tree shape is accepted",
+        ],
+    },
+    "C16": {
+        "families": [{"name": "c16"}],
+        "assumptions": [
+            "the theorem is about the struct table (derives, fields, zeroize(skip)) of the current source as extracted by the translator, and about the semantics of the zeroize derive as modelled in Model/Zeroize.v; drop-time memory effects are not observable in a Gallina model",
+        ],
+    },
 }
